@@ -158,11 +158,17 @@ func VH_S_Lifecycle() {
 	id, cron := vx.String("id"), vx.String("cron")
 	tags1, tags2 := vx.Tags("ptags1", 1), vx.Tags("ptags2", 1)
 	hdr1, hdr2 := vx.Tags("phdr1", 1), vx.Tags("phdr2", 1)
+	tmpl1, tmpl2 := vx.String("template1"), vx.String("template2")
 	mk := func(tags, hdr map[string]string, data []byte) *t_api.Request {
+		tmpl := tmpl1
+		if string(data) == "two" {
+			tmpl = tmpl2
+		}
 		return &t_api.Request{Kind: t_api.CreateSchedule, Tags: map[string]string{}, CreateSchedule: &t_api.CreateScheduleRequest{Id: id, Cron: cron,
-			Tags: map[string]string{}, PromiseId: id + ".{{.timestamp}}", PromiseTimeout: 1000, PromiseParam: promise.Value{Headers: hdr, Data: data}, PromiseTags: tags}}
+			Tags: map[string]string{}, PromiseId: tmpl, PromiseTimeout: 1000, PromiseParam: promise.Value{Headers: hdr, Data: data}, PromiseTags: tags}}
 	}
-	fired := func() (vx.Row, bool) {
+	// fired: the promise row inserted by one sweep, with the schedule row (as read by that sweep) it was made for
+	fired := func() (vx.Row, vx.Row, bool) {
 		n0 := vx.NYields()
 		_, _ = SchedulePromises(cfg, map[string]string{})(c)
 		for i := n0 + 1; i < vx.NYields(); i++ {
@@ -173,17 +179,17 @@ func VH_S_Lifecycle() {
 			for k := 0; k < vx.NSlots("promises"); k++ {
 				a, b := vx.Slot(pre, "promises", k), vx.Slot(post, "promises", k)
 				if !a.Present() && b.Present() {
-					return b, true
+					return b, vx.Lookup(pre, "schedules", id), true
 				}
 			}
 		}
-		return vx.Row{}, false
+		return vx.Row{}, vx.Row{}, false
 	}
 	r1, err := CreateSchedule(c, mk(tags1, hdr1, []byte("one")))
 	if err != nil || r1.CreateSchedule.Status != t_api.StatusCreated {
 		return
 	}
-	p1, ok1 := fired()
+	p1, s1, ok1 := fired()
 	if !ok1 {
 		return
 	}
@@ -192,6 +198,7 @@ func VH_S_Lifecycle() {
 	want1["resonate:schedule"] = id
 	want1["resonate:invocation"] = "true"
 	vx.Assert(vx.And(vx.MapEq(p1.Map("tags"), want1), vx.MapEq(p1.Map("param_headers"), hdr1), vx.BytesEq(p1.Bytes("param_data"), []byte("one"))), "C10:lifecycle-first-firing-as-configured")
+	vx.Assert(vx.And(s1.Present(), p1.Str("id") == vx.TmplExpand(tmpl1, id, vx.Itoa(s1.Int("next_run_time")))), "C10:lifecycle-first-firing-id-from-its-own-template")
 	d, err := DeleteSchedule(c, &t_api.Request{Kind: t_api.DeleteSchedule, Tags: map[string]string{}, DeleteSchedule: &t_api.DeleteScheduleRequest{Id: id}})
 	if err != nil || d.DeleteSchedule.Status != t_api.StatusNoContent {
 		return
@@ -200,7 +207,7 @@ func VH_S_Lifecycle() {
 	if err != nil || r2.CreateSchedule.Status != t_api.StatusCreated {
 		return
 	}
-	p2, ok2 := fired()
+	p2, s2, ok2 := fired()
 	if !ok2 {
 		return
 	}
@@ -209,6 +216,7 @@ func VH_S_Lifecycle() {
 	want2["resonate:schedule"] = id
 	want2["resonate:invocation"] = "true"
 	vx.Assert(vx.And(vx.MapEq(p2.Map("tags"), want2), vx.MapEq(p2.Map("param_headers"), hdr2), vx.BytesEq(p2.Bytes("param_data"), []byte("two"))), "C10:lifecycle-recreated-schedule-fires-with-its-own-configuration")
+	vx.Assert(vx.And(s2.Present(), p2.Str("id") == vx.TmplExpand(tmpl2, id, vx.Itoa(s2.Int("next_run_time")))), "C10:lifecycle-recreated-schedule-id-from-its-own-template")
 }
 
 func vhCopyMap(m map[string]string) map[string]string {
